@@ -41,8 +41,8 @@ def other_values(pid):
     out = {}
     for j, f in enumerate(OTHER):
         out[f] = ((pid * (j + 5) * 7919 + j * 10007) % 4001) / 8.0 - 200.0 + 0.1 * j
-    out["object_id"] = float(pid % 3 + 1)
-    out["class"] = float(pid % 2 + 1)
+    out["object_id"] = float(pid % 3)              # identifier columns take the value 0, too
+    out["class"] = float(pid % 2)
     return out
 
 
@@ -592,13 +592,14 @@ def gen_case(rng, idx, big):
         names = rng.choice([["oob", "oob"], ["oob", "oob", "oob"], ["oob", "trim", "oob"], ["points", "points"],
                             ["mask", "mask"], ["mask", "oob"], ["oob", "points", "oob"], ["trim", "oob"], ["oob", "mask"]])
     ntomo = rng.randint(1, 4)
-    ids = rng.sample(range(1, 9), ntomo + 2)
+    ids = rng.sample(range(0, 9), ntomo + 2)          # tomogram number 0 is an identifier like any other
     tomos, extra = ids[:ntomo], ids[ntomo:ntomo + rng.randint(0, 2)]      # extra: tomograms without particles
     top = 12 if "mask" in names else (60 if big else 24)
     dims = [[t, rng.randint(3, top), rng.randint(3, top), rng.randint(3, top)] for t in tomos + extra]
     rng.shuffle(dims)
     dmap = {d[0]: d[1:] for d in dims}
     n = rng.randint(1, 60 if big else 12)
+    id0 = rng.choice([0, 1, 1, 100000, 250000])        # subtomogram numbers from 0, from 1 or large and consecutive
     ps = []
     for k in range(n):
         t = rng.choice(tomos)
@@ -614,7 +615,7 @@ def gen_case(rng, idx, big):
             x = [8 * rng.randint(-1, dmap[t][i] + 2) for i in range(3)]       # whole-voxel extraction positions
         else:
             x = [c[i] - s[i] for i in range(3)]
-        ps.append([k + 1, t] + x + s)
+        ps.append([k + id0, t] + x + s)
     rng.shuffle(ps)
     ops = []
     pts = None
